@@ -25,6 +25,9 @@ import (
 
 func TestMain(m *testing.M) { rec.Main(m, "C06") }
 
+// ruleMore describes what was added to the exploration in the build phase.
+const ruleMore = "; also: specifications that use the EBNF operators (rules reachable and productive by construction, one operand under several operators, punctuation literals): the language of the grammar the table is built for must equal the language of the text, the table is handed out iff the reference construction on the derived grammar is conflict free, and the driver accepts exactly the text's sentences; conflict-free grammars with random directives over their terminals and productions (nothing to resolve: accepted, same language); directives before, after and around the rule"
+
 const (
 	rule = "grammars: textbook families of known class (SLR, LALR-not-SLR, LR(1)-not-LALR, ambiguous, dangling else, epsilon-rich), random reduced plain grammars (2-4 non-terminals, 2-3 terminals, <=7 productions, " +
 		"constructed so that every non-terminal is productive and reachable; a template yields LR(1)-not-LALR(1) cases), operator grammars with 1-5 binary and 0-2 prefix operators under a random precedence table; " +
@@ -264,7 +267,7 @@ type tb interface {
 
 func TestTextbookFamilies(t *testing.T) {
 	rec.Begin(t)
-	rec.Rule(rule)
+	rec.Rule(rule + ruleMore)
 	if rec.Shard() != 0 {
 		t.Skip("seed independent: shard 0 only")
 	}
@@ -359,7 +362,7 @@ func genGrammar(t *rapid.T) *ref.Grammar {
 }
 
 func TestRandomReducedGrammars(t *testing.T) {
-	rec.Rule(rule)
+	rec.Rule(rule + ruleMore)
 	cyclicListed := rec.Listed(cyclicKey)
 	if kernelTolerated() {
 		rec.Assume("listed finding lalr-kernel-superset (dependency): grammars in which the LR(0) kernel of one state is a proper subset of another state's kernel are not checked (counted as excluded_known_kernel_subset)")
@@ -598,7 +601,7 @@ func genEBNF(t *rapid.T) *ref.SpecModel {
 }
 
 func TestEBNFGrammarsEndToEnd(t *testing.T) {
-	rec.Rule(rule)
+	rec.Rule(rule + ruleMore)
 	cyclicListed := rec.Listed(cyclicKey)
 	kernelTolerated()
 	opts := gen.SpecOpts{MaxRules: 2, Depth: 3, Literals: []string{"a", "b", "c"}}
@@ -832,7 +835,7 @@ func genOps(t *rapid.T) *opGrammar {
 }
 
 func TestOperatorGrammars(t *testing.T) {
-	rec.Rule(rule)
+	rec.Rule(rule + ruleMore)
 	rec.Assume("@none levels are not generated for binary operators (the dependency reports a same-level @none clash as unresolved, which the property allows); rule handles are used for grouped operator levels only (productions without terminals, the documented use)")
 	rec.Check(t, 120, 5000, func(t *rapid.T) {
 		o := genOps(t)
@@ -948,7 +951,7 @@ func parseApp(toks []string) (string, bool) {
 
 func TestDirectiveResolvedFamilies(t *testing.T) {
 	rec.Begin(t)
-	rec.Rule(rule)
+	rec.Rule(rule + ruleMore)
 	if rec.Shard() != 0 {
 		t.Skip("seed independent: shard 0 only")
 	}
